@@ -136,6 +136,12 @@ func (ex *Exec) runRoot() {
 		ex.assumeAllocated(st, v)
 		ex.inputs = append(ex.inputs, inputVar{Name: p.Name(), V: v})
 	}
+	// methods are verified for non-nil pointer receivers; callers are checked for that at non-inlined calls
+	if recv := fn.Signature.Recv(); recv != nil && len(fn.Params) > 0 && (ct == nil || !ct.NilRecv) {
+		if _, isPtr := recv.Type().Underlying().(*types.Pointer); isPtr {
+			ex.emit("(assert " + not(eq(fr.vals[fn.Params[0]].L[0], "0")) + ")")
+		}
+	}
 	for _, fv := range fn.FreeVars {
 		v := ex.freshVal("fv."+fv.Name(), fv.Type())
 		fr.vals[fv] = v
@@ -161,6 +167,25 @@ func (ex *Exec) runRoot() {
 		}
 	}
 	*pre = *st.clone()
+	if ct != nil && ct.HasMod && !ct.Trusted {
+		en := ex.newEnv(fr, pre, pre, fr.params)
+		for _, m := range ct.Modifies {
+			ex.modAllowed = append(ex.modAllowed, ex.modLocs(en, m)...)
+		}
+		for _, gu := range ct.Updates {
+			var s *ESel
+			switch l := gu.LHS.(type) {
+			case *ESel:
+				s = l
+			case *EIndex:
+				s, _ = l.X.(*ESel)
+			}
+			if s != nil {
+				ex.modAllowed = append(ex.modAllowed, ex.modLocs(en, s)...)
+			}
+		}
+		ex.modActive = true
+	}
 	ex.cover(fr, st, "entry", fn.Pos())
 	ex.runBody(fr, st)
 	ex.finishRoot(fr, pre)
@@ -367,9 +392,6 @@ func (ex *Exec) finishRoot(fr *Frame, pre *State) {
 			chk(Val{T: types.NewPointer(sr.T), L: []string{sr.Ref}}, "@written")
 		}
 	}
-	if ct.HasMod {
-		ex.checkAssigns(fr, st, pre, vars, ct)
-	}
 }
 
 // applyGhostUpdate performs "update when cond: lhs = rhs".
@@ -503,17 +525,7 @@ func (ex *Exec) modLocs(en *Env, e Expr) (locs []modLoc) {
 			}
 			return []modLoc{{kind: "field", keys: ex.structKeys(T), ref: obj.L[0]}}
 		}
-		obj := en.eval(d.X)
-		T := obj.T
-		if p, ok := T.Underlying().(*types.Pointer); ok {
-			T = p.Elem()
-		} else if _, ok := T.Underlying().(*types.Interface); ok {
-			if impl := ex.uniqueImpl(T); impl != nil {
-				T = impl.Underlying().(*types.Pointer).Elem()
-				obj = Val{T: impl, L: []string{obj.L[1]}}
-			}
-		}
-		ref := obj.L[0]
+		ref, T := en.objRef(d.X)
 		// ghost?
 		if tc := ex.C.Types[typeContractKey(T)]; tc != nil {
 			for _, g := range tc.Ghosts {
@@ -814,6 +826,7 @@ func (ex *Exec) applyContract(fr *Frame, st *State, fn *ssa.Function, ct *FuncCo
 				locs = append(locs, ex.modLocs(en, s)...)
 			}
 		}
+		ex.callAssigns(st, locs)
 		ex.havocLocs(st, locs)
 		for _, h := range ct.Havoc {
 			var ks []string
@@ -1003,6 +1016,27 @@ func (ex *Exec) loopEnv(fr *Frame, st *State, li *loopInfo) *Env {
 	return en
 }
 
+// autoInvTerms: structural facts of the SSA lowering that are checked like user invariants.
+// For "for i := range slice" loops the hidden index k satisfies -1 <= k < 2^44.
+func (ex *Exec) autoInvTerms(fr *Frame, li *loopInfo, st *State) []string {
+	if li.head.Comment != "rangeindex.loop" {
+		return nil
+	}
+	for _, in := range li.head.Instrs {
+		if u, ok := in.(*ssa.UnOp); ok && u.Op == token.MUL {
+			if a, ok := u.X.(*ssa.Alloc); ok && fr.regs[a] {
+				v, ok := st.vars[a]
+				if !ok || len(v.L) != 1 {
+					return nil
+				}
+				return []string{and(app("bvsge", v.L[0], "#xffffffffffffffff"), app("bvslt", v.L[0], "#x0000100000000000"))}
+			}
+			break
+		}
+	}
+	return nil
+}
+
 func (ex *Exec) loopHead(fr *Frame, li *loopInfo, cur *State) *State {
 	invs, decs := ex.loopClauses(fr, li)
 	label := fmt.Sprintf("loop%d", li.ord)
@@ -1026,13 +1060,16 @@ func (ex *Exec) loopHead(fr *Frame, li *loopInfo, cur *State) *State {
 			o.HasQuant = en.quant
 		}
 	}
+	for _, t := range ex.autoInvTerms(fr, li, cur) {
+		ex.oblige(fr, cur, "inv-entry", label+".auto-rangeindex", t, pos, "hidden range index starts at -1")
+	}
 	// havoc everything the loop may write
 	ns := cur.clone()
 	keys, top, regs := ex.loopMods(fr, li)
 	if top {
 		ex.havocAll(ns, "loop body calls unknown functions")
 	} else {
-		ex.havocKeys(ns, keys)
+		ex.havocLoopKeys(fr, li, cur, ns, keys, regs)
 	}
 	for _, a := range regs {
 		T := a.Type().(*types.Pointer).Elem()
@@ -1047,6 +1084,9 @@ func (ex *Exec) loopHead(fr *Frame, li *loopInfo, cur *State) *State {
 		}
 	}
 	ls := &loopState{headSt: ns}
+	for _, t := range ex.autoInvTerms(fr, li, ns) {
+		ex.assume(ns.pc, t)
+	}
 	for _, c := range invs {
 		en := ex.loopEnv(fr, ns, li)
 		t, err := en.evalBool(c.E)
@@ -1100,6 +1140,9 @@ func (ex *Exec) loopBack(fr *Frame, li *loopInfo, st *State) {
 		for _, p := range fr.fn.Params {
 			ex.checkTypeInv(fr, st, fr.vals[p], "@"+label+"."+p.Name(), pos)
 		}
+	}
+	for _, t := range ex.autoInvTerms(fr, li, st) {
+		ex.oblige(fr, st, "inv-pres", label+".auto-rangeindex", t, pos, "hidden range index stays within -1..len")
 	}
 	ls := fr.loopSt[li]
 	for i, c := range decs {
@@ -1243,6 +1286,31 @@ func (ex *Exec) modelTerms() []ModelVar {
 			}
 		}
 	}
+	// scalar fields of struct objects passed by pointer (initial heap)
+	for _, in := range ex.inputs {
+		pt, ok := in.V.T.Underlying().(*types.Pointer)
+		if !ok {
+			continue
+		}
+		S, ok := isPlainStruct(pt.Elem())
+		if !ok {
+			continue
+		}
+		for i := 0; i < S.NumFields(); i++ {
+			f := S.Field(i)
+			if _, plain := isPlainStruct(f.Type()); plain {
+				continue
+			}
+			for _, l := range flatten(f.Type()) {
+				if strings.HasPrefix(l.Sort, "(Array") || l.Sort == sStr || l.Sort == sOpq {
+					continue
+				}
+				if h0, ok := ex.initHeap[fieldKey(pt.Elem(), f.Name(), l.Path)]; ok {
+					out = append(out, ModelVar{Name: in.Name + "." + f.Name() + l.Path, Term: sel(h0, in.V.L[0])})
+				}
+			}
+		}
+	}
 	for _, e := range ex.extraModel {
 		out = append(out, e)
 	}
@@ -1367,4 +1435,62 @@ func solveOne(ex *Exec, o *Obligation, cfg *solveCfg) {
 			o.Status = "timeout"
 		}
 	}
+}
+
+
+// objRef evaluates an expression that denotes a struct object and returns its reference and struct type.
+func (en *Env) objRef(e Expr) (string, types.Type) {
+	if s, ok := e.(*ESel); ok {
+		// try as nested struct field of an object
+		if isObj := en.denotesObject(s.X); isObj {
+			pref, PT := en.objRef(s.X)
+			if S, ok := PT.Underlying().(*types.Struct); ok {
+				for i := 0; i < S.NumFields(); i++ {
+					f := S.Field(i)
+					if f.Name() != s.Name {
+						continue
+					}
+					if _, plain := isPlainStruct(f.Type()); plain {
+						return en.ex.subRef(PT, f.Name(), pref), f.Type()
+					}
+					if p, ok := f.Type().Underlying().(*types.Pointer); ok {
+						return en.ex.loadField(en.st, PT, f, pref).L[0], p.Elem()
+					}
+					if _, ok := f.Type().Underlying().(*types.Interface); ok {
+						if impl := en.ex.uniqueImpl(f.Type()); impl != nil {
+							v := en.ex.loadField(en.st, PT, f, pref)
+							return v.L[1], impl.Underlying().(*types.Pointer).Elem()
+						}
+					}
+				}
+			}
+		}
+	}
+	obj := en.eval(e)
+	T := obj.T
+	if p, ok := T.Underlying().(*types.Pointer); ok {
+		return obj.L[0], p.Elem()
+	}
+	if _, ok := T.Underlying().(*types.Interface); ok && len(obj.L) == 2 {
+		if impl := en.ex.uniqueImpl(T); impl != nil {
+			return obj.L[1], impl.Underlying().(*types.Pointer).Elem()
+		}
+	}
+	en.fail("%s does not denote an object", exprString(e))
+	return "", nil
+}
+
+// denotesObject: the expression is a pointer/object (not a package name).
+func (en *Env) denotesObject(e Expr) bool {
+	if id, ok := e.(*EIdent); ok {
+		if _, bound := en.vars[id.Name]; bound {
+			return true
+		}
+		if en.fr != nil && en.findLocal(id.Name) != nil {
+			return true
+		}
+		return false
+	}
+	_, isSel := e.(*ESel)
+	return isSel
 }
